@@ -121,3 +121,28 @@ __CPROVER_assigns(g_sub_calls, g_sub_ret, g_exc)                                
 __CPROVER_ensures(g_sub_calls == 1)                                                              /*@ob C07.submachine-offered-the-event-exactly-once */
 __CPROVER_ensures(!g_exc ==> (int)__CPROVER_return_value == g_sub_ret)                           /*@ob C07.inner-result-returned-unchanged */
 ;
+
+/* ---------------- backmp11 favor_compile_time: state_dispatch_table::dispatch (one state's cell) ---------------- */
+typedef struct { _Bool m_call_process_event; _Bool has_chain; } sdt_t;      /* function pointer set? ; m_transition_chains.find(event.type()) != end() */
+extern int g_sub_calls2, g_sub_ret2, g_chain_calls, g_chain_ret;
+process_result call_process_event_fp(const sdt_t* self, fsm_t* sm, event_t event)
+__CPROVER_requires(self->m_call_process_event && g_sub_calls2 == 0 && g_chain_calls == 0)       /*@ob C01,C07.active-submachine-offered-the-event-first-and-once */
+__CPROVER_requires(EV_EQ(event, g_evt))
+__CPROVER_assigns(g_sub_calls2, g_sub_ret2)
+__CPROVER_ensures(g_sub_calls2 == 1 && 0 <= g_sub_ret2 && g_sub_ret2 <= 7 && (int)__CPROVER_return_value == g_sub_ret2)
+;
+process_result chain_execute_acc(const sdt_t* self, fsm_t* sm, uint8_t region_id, event_t event, process_result result)
+__CPROVER_requires(self->has_chain && g_chain_calls == 0)
+__CPROVER_requires(!CONSUMED(g_sub_calls2 ? g_sub_ret2 : 0))                                      /*@ob C01,C07.no-candidate-after-consumption */
+__CPROVER_requires((int)result == (g_sub_calls2 ? g_sub_ret2 : HANDLED_FALSE))                    /*@ob C06,C13.guard-reject-of-the-inner-level-is-carried-into-the-outer-chain */
+__CPROVER_requires(EV_EQ(event, g_evt))
+__CPROVER_assigns(g_chain_calls, g_chain_ret)
+__CPROVER_ensures(g_chain_calls == 1 && 0 <= g_chain_ret && g_chain_ret <= 7 && (int)__CPROVER_return_value == g_chain_ret)
+;
+process_result state_dispatch(const sdt_t* self, fsm_t* sm, uint8_t region_id, event_t event)
+__CPROVER_requires(__CPROVER_is_fresh(self, sizeof(*self)) && g_sub_calls2 == 0 && g_chain_calls == 0 && EV_EQ(event, g_evt))
+__CPROVER_assigns(g_sub_calls2, g_sub_ret2, g_chain_calls, g_chain_ret)
+__CPROVER_ensures(g_sub_calls2 == (self->m_call_process_event ? 1 : 0))                                                          /*@ob C07.active-submachine-offered-the-event-first-and-once */
+__CPROVER_ensures(g_chain_calls == ((self->has_chain && !(g_sub_calls2 && CONSUMED(g_sub_ret2))) ? 1 : 0))                       /*@ob C01,C07.outer-chain-tried-iff-the-inner-level-did-not-consume */
+__CPROVER_ensures((int)__CPROVER_return_value == (g_chain_calls ? g_chain_ret : g_sub_calls2 ? g_sub_ret2 : HANDLED_FALSE))      /*@ob C06,C13.result-of-the-level-that-decided */
+;
